@@ -7,6 +7,9 @@ subset of the function's parameters, with interval constraints containing the st
 convergence clause -- the minimiser), then init followed by optimize / single steps.
 The `hint` op carries what the generator knows about the objective (condition number, minimiser,
 whether the minimiser is strictly inside the constraints); the harness ignores it.
+Three cases in ten go on with a re-use history: the same optimiser object is initialised again, one to
+three times, after any of setMaximumNumberOfEvaluations / setConstraintPolicy (keep / ignore / auto) /
+clone, with the same constraints, none, other ones or a tight box, from another start.
 """
 import random, struct, math
 
@@ -223,6 +226,12 @@ def gen_case(rng, idx, tier):
         extra = r.choice(["full", "step"])
         if r.random() < 0.6:
             extra += " %d" % r.choice([1, 3, 4, 6])
+        # which optimisers the description holds: mostly the modelled pair (coordinate-wise Brent + BFGS); else another
+        # pair (the last member Powell) or ONE member for all the parameters (harness/C10.cpp)
+        if r.random() < 0.3:
+            if len(extra.split()) < 2:
+                extra += " 2"
+            extra += " " + r.choice(["sp", "bp", "p", "b", "s", "c", "p", "sp"])
     kname = "brent" if kind == "brentin" else kind
     tol_s = hx(tol) if r.random() < 0.95 else "-"
     lines.append("opt %s %s %s %d %s" % (kname, pol, tol_s, mx, extra))
@@ -246,25 +255,89 @@ def gen_case(rng, idx, tier):
     else:
         lines.append("optimize")
         lines.append("optimize")
-    # the same optimiser used again: another budget, init from another start (state left by the first run)
-    if r.random() < 0.12:
-        if r.random() < 0.6:
-            lines.append("setmax %d" % r.choice([0, 1, 1, 2, 3, 5, 50, 2000]))
-        start2 = {}
-        for k in sel:
-            v = start[k]
-            if kind != "nback":
-                w = v + r.uniform(-1, 1)
-                c = cons.get(k)
+    # the same optimiser OBJECT used again (state left by the earlier runs, in the optimiser and in the
+    # DirectionFunction / one-dimensional optimisers it owns): another budget, another constraint policy,
+    # other constraints (box <-> no box, another box, a tight one), another start, between successive inits
+    if r.random() < 0.3:
+        cur_pol, cur_cons, cur_start = pol, dict(cons), dict(start)
+        for _ in range(r.choice([1, 1, 1, 2, 2, 3])):
+            if r.random() < 0.4:
+                lines.append("setmax %d" % r.choice([0, 1, 1, 2, 3, 5, 50, 2000, 2000, 5000]))
+            if r.random() < 0.6:
+                cur_pol = r.choice(["k", "i", "a", "a", "a"])
+                lines.append("setpol %s" % cur_pol)
+            if r.random() < 0.05:
+                lines.append("clone")
+            mode = r.choice(["same", "same", "none", "fresh", "fresh", "fresh", "tight", "tight"])
+            if kind == "meta" and mode in ("fresh", "tight"):
+                mode = r.choice(["same", "none", "wide"])     # (it starts from the function's own point, which the generator does not know)
+            new_start, new_cons = {}, {}
+            for k in sel:
+                v = cur_start[k]
+                if kind != "nback":
+                    u = r.random()
+                    v = v + r.uniform(-1, 1) if u < 0.6 else (start[k] if u < 0.8 else v)
+                if fam == "quadi" and r.random() < 0.7:
+                    v = float(round(v))
+                if kind == "meta":
+                    v = x0[k]                # (a value the constraints of the first list accept; the optimiser does not use it)
+                m = xs[k] if xs is not None else v
+                c = None
+                if mode == "same":
+                    c = cur_cons.get(k)
+                    if c is not None:
+                        lo, hi = c[0], c[1]
+                        if not ((lo is None or lo + 1e-6 < v) and (hi is None or v < hi - 1e-6)):
+                            v = cur_start[k]
+                elif mode == "wide":
+                    c = (min(v, m) - r.uniform(40, 60), max(v, m) + r.uniform(40, 60), 1, 1) if r.random() < 0.7 else None
+                elif mode == "fresh":
+                    if r.random() < 0.75:
+                        w = r.random()
+                        if w < 0.5:
+                            lo, hi = min(v, m) - r.uniform(0.5, 4), max(v, m) + r.uniform(0.5, 4)
+                        elif w < 0.7:
+                            lo, hi = (v - r.choice([0, 0, 1e-9, 1e-3]), max(v, m) + r.uniform(0.5, 4)) if r.random() < 0.5 else (min(v, m) - r.uniform(0.5, 4), v + r.choice([0, 0, 1e-9, 1e-3]))
+                        else:
+                            if v <= m:
+                                lo, hi = v - r.uniform(0.1, 3), v + abs(m - v) * r.uniform(0.1, 0.9) + 1e-3
+                            else:
+                                lo, hi = v - abs(m - v) * r.uniform(0.1, 0.9) - 1e-3, v + r.uniform(0.1, 3)
+                        c = (lo, hi, int(r.random() < 0.8), int(r.random() < 0.8))
+                elif mode == "tight":
+                    # a bound within reach of the outward bracketing of a line search from the start (it goes up to
+                    # ~1.6 .. 2.6 times the distance to the line minimum), on either side of the minimiser
+                    d = abs(m - v) + r.choice([0.0, 0.05, 0.3])
+                    f1, f2 = r.uniform(0.3, 1.6), r.uniform(0.02, 0.6)
+                    lo, hi = (v - f2 * d - 1e-3, v + f1 * d + 1e-3) if v <= m else (v - f1 * d - 1e-3, v + f2 * d + 1e-3)
+                    c = (lo, hi, int(r.random() < 0.8), int(r.random() < 0.8))
+                if c is not None and mode != "same":
+                    lo, hi, il, ih = c
+                    if lo == v:
+                        il = 1
+                    if hi == v:
+                        ih = 1
+                    if r.random() < 0.1:
+                        if r.random() < 0.5:
+                            lo = None
+                        else:
+                            hi = None
+                    c = (lo, hi, il, ih)
+                new_start[k] = v
                 if c is not None:
-                    lo, hi = c[0], c[1]
-                    if (lo is None or lo + 1e-6 < w) and (hi is None or w < hi - 1e-6):
-                        v = w
-                else:
-                    v = w
-            start2[k] = v
-        lines.append("init %d %s" % (len(sel), " ".join("%d %s %s" % (k, hx(start2[k]), con_s(cons.get(k))) for k in sel)))
-        lines.append("optimize")
+                    new_cons[k] = c
+            cur_cons, cur_start = new_cons, new_start
+            lines.append("init %d %s" % (len(sel), " ".join("%d %s %s" % (k, hx(cur_start[k]), con_s(cur_cons.get(k))) for k in sel)))
+            u = r.random()
+            if u < 0.75:
+                lines.append("optimize")
+            elif u < 0.9:
+                for _ in range(r.randint(1, 3)):
+                    lines.append("step")
+                lines.append("optimize")
+            else:
+                lines.append("optimize")
+                lines.append("optimize")
     return lines
 
 
